@@ -212,4 +212,22 @@ def doPrevoteUnrepaired (n : Node) : Out :=
 theorem unrepaired_counterexample :
     doPrevoteUnrepaired { locked := none, proposal := some badBlock } = .vote (some 8) ∧ validateBlock badBlock = false := by decide
 
+
+/-- T2: the checks `validateBlock` makes, in source order — in particular the last commit is verified against the LAST
+validator set (the one in force at the committed height), with the status's chain id and last block id, and its size is
+compared with that set's size.  Any edit of these conditions (a different receiver, a dropped comparison) breaks this
+`rfl` and is reported; a harmless rewrite has to be reviewed and the table amended. -/
+theorem validateBlock_checks_fact : Gen.C02Facts.validateBlockChecks =
+    ["if err != nil", "call block.ValidateBasic()", "if block.ChainID != status.ChainID",
+     "if block.Height != status.LastBlockHeight+1", "if !block.LastBlockID.Equals(status.LastBlockID)",
+     "if block.TotalTxs != status.LastBlockTotalTx+newTxs",
+     "if !bytes.Equal(block.ConsensusHash.Bytes(), status.ConsensusParams.Hash())",
+     "if !bytes.Equal(block.ValidatorsHash.Bytes(), status.Validators.Hash()) && block.Recover < 1",
+     "if block.Height == types.BlockHeightOne", "if len(block.LastCommit.Precommits) != 0",
+     "if len(block.LastCommit.Precommits) != status.LastValidators.Size()",
+     "call status.LastValidators.VerifyCommit( status.ChainID, status.LastBlockID, block.Height-1, block.LastCommit)",
+     "if err != nil", "if err != nil", "call VerifyEvidence(statusDB, status, ev)", "if err != nil || onlyOneFvi",
+     "call VerifyFaultValEvidence(status, block.LastCommit, evi)",
+     "if !onlyOneFvi && block.Height > types.BlockHeightOne && !status.LastRecover"] := rfl
+
 end Props.C02
